@@ -509,6 +509,10 @@ class HedSchema(HedSchemaBase):
         namespace = schema_namespace
         clean_tag = clean_tag[len(namespace):]
         working_tag = clean_tag.casefold()
+        if len(working_tag) != len(clean_tag):
+            # A character whose case folding is longer than itself ('ß' -> 'ss') would shift every index taken below;
+            # no schema name contains one, so it is kept as it is.
+            working_tag = "".join(c.casefold() if len(c.casefold()) == 1 else c for c in clean_tag)
 
         # Most tags are in the schema directly, so test that first
         found_entry = self._get_tag_entry(working_tag)
